@@ -22,6 +22,13 @@ impl<const N: usize, const M: usize> Matrix<N, M> {
         assert!(i < N && j < M);
         self.data[i][j]
     }
+
+    /// Whether every entry is finite (neither infinite nor NaN)
+    pub fn is_finite(&self) -> bool {
+        self.data
+            .iter()
+            .all(|row| row.iter().all(|v| v.is_finite()))
+    }
 }
 
 impl<const N: usize> Vector<N> {
